@@ -421,7 +421,7 @@ type Profile struct {
 var allKinds = []string{"send", "multisend", "sell", "sellall", "buy", "createcoin", "recreatecoin", "createtoken", "recreatetoken",
 	"editcoinowner", "mint", "burn", "declare", "delegate", "unbond", "move", "seton", "setoff", "editcand", "editcandpk", "editcandcomm",
 	"createmultisig", "editmultisig", "sethalt", "voteupdate", "votecomm", "createpool", "addliq", "remliq", "sellpool", "buypool",
-	"sellallpool", "addorder", "remorder", "lockstake", "lock", "redeem", "pricevote", "unknowntype"}
+	"sellallpool", "addorder", "remorder", "lockstake", "lock", "redeem", "pricevote", "unknowntype", "sellusdt", "sellbip"}
 
 // GeneralProfile exercises every transaction type with modest fault rates.
 func GeneralProfile() Profile {
